@@ -290,6 +290,32 @@ XML_OTHER = ('<?xml version="1.0" encoding="utf-8"?>\n<SearchPlugin xmlns="http:
              "<ShortName>%s</ShortName>\n</SearchPlugin>\n")
 
 
+# contents on which every format's checker has something to report; the operations over them are
+# REPEATED (same operation twice, same content under a second name, lint then compare ...): a
+# checker that remembers results or spent iterators per content shows as history dependence
+FINDINGS = {
+    "android": ("strings_two.xml",
+                '<?xml version="1.0" encoding="utf-8"?>\n<resources>\n'
+                '  <string name="a">It\\\'s %1$s of %2$d</string>\n'
+                '  <string name="b">plain</string>\n  <string name="c">It\\\'s</string>\n</resources>\n',
+                '<?xml version="1.0" encoding="utf-8"?>\n<resources>\n'
+                '  <string name="a">C\'est %2$s de %3$d</string>\n'
+                '  <string name="b">l\'autre "x</string>\n  <string name="c">C\'est %2$s de %3$d</string>\n'
+                '</resources>\n'),
+    "properties": ("g.properties",
+                   "a = %S files in %S\nb = %1$S and %2$S\nc = plain\n" + PLURAL_PROPS_REF,
+                   "a = %S Dateien\nb = %2$S und %3$d\nc = bad \\q escape\n" + PLURAL_PROPS_L10N[2]),
+    "dtd": ("g.dtd",
+            '<!ENTITY a "plain &brandShortName; text">\n<!ENTITY w "width: 20em">\n<!ENTITY n "12">\n'
+            '<!ENTITY b "some <b>bold</b>">\n',
+            '<!ENTITY a "text &unknownEntity; here">\n<!ENTITY w "width: 20">\n<!ENTITY n "twelve">\n'
+            '<!ENTITY b "some <b>unclosed">\n'),
+    "ftl": ("g.ftl",
+            "a = Value { $num }\n    .title = Tip\n-term = T\nb = uses { -term }\n" + PLURAL_FTL_REF,
+            "a = Wert { $other }\nb = no term\n    .extra = x\n    .extra = y\n-term = T\n" + PLURAL_FTL_L10N),
+}
+
+
 def build_pool(rng):
     """texts per format and the list of operation specs (plain JSON)"""
     texts = {f: [] for f in range(8)}
@@ -367,6 +393,20 @@ def build_pool(rng):
                         "loc": loc, "fam": "loc:" + lang})
     ops.append({"k": "lint", "f": pf, "ref": pr, "cur": pl[0], "extra": None})
     ops.append({"k": "lint", "f": ff, "ref": None, "cur": fl, "extra": None})
+    # repeated operations over contents with check findings
+    for fmt, (alt, ref_t, l10n_t) in sorted(FINDINGS.items()):
+        f = FMT.index(fmt)
+        a, b = add_text(f, ref_t), add_text(f, l10n_t)
+        fam = "rep:" + fmt
+        loc = "zh-CN" if fmt in ("properties", "ftl") else "de"
+        for name in (None, alt):
+            extra = {"name": name} if name else {}
+            ops.append(dict({"k": "compare", "f": f, "ref": a, "l10n": b, "extra": None, "merge": False,
+                             "loc": loc, "fam": fam}, **extra))
+            ops.append(dict({"k": "lint", "f": f, "ref": a, "cur": b, "extra": None, "fam": fam}, **extra))
+        ops.append({"k": "compare", "f": f, "ref": b, "l10n": b, "extra": None, "merge": True,
+                    "loc": loc, "fam": fam})
+        ops.append({"k": "lint", "f": f, "ref": None, "cur": b, "extra": None, "fam": fam})
     # names of one extension family: with and without a parser
     for ext, names in sorted(NAME_FAMILIES.items()):
         for name in names:
@@ -1522,6 +1562,8 @@ def history_round(chk, rng, model, nseq, rnd, t0):
             fam.setdefault(key, []).append(o)
     for key, members in sorted(fam.items()):
         for a in members:
+            if len(members) > 14 and not chk.thorough and a["k"] not in ("getparser", "compare", "parse"):
+                continue      # quick tier, big family: only the cheap kinds as the first operation
             for b in members:
                 seqs.append([a, b])
     # random histories
